@@ -22,7 +22,17 @@ run_components with a harness-chosen linear extension or a cached dr.run_order),
 `history` evaluates one world several times in one process through the public front ends
 (insights.run / _run / process_dir / dr.* / SingleEvaluator, default graph, group name, private graph,
 one caller-owned graph object), including serialized archives written with Hydration.dehydrate; the
-same resolver is applied after every step and once more for every context after the last step."""
+same resolver is applied after every step and once more for every context after the last step.
+
+Round 5: (a) a spec set may bind ONE datasource object to several registry-point names (`secondary =
+primary` in the class body, or a datasource an earlier class already bound under another name): one
+implementation, one execution, resolved per spec name; (b) the context classes of a world may extend
+one another (as JBossContext extends HostContext and plug-ins extend HostArchiveContext) and may be the
+shipped HostContext / JBossContext / HostArchiveContext themselves - "declared for a context" names a
+class, the active context is the class in the broker, a context that extends another one is another
+context; (c) in `history` the broker of the dr.* / SingleEvaluator steps is prepared by the harness or by
+the repository's hydration.initialize_broker (directory with the context's marker, or context handed
+over), and insights._run is also driven without a root."""
 import itertools
 import json
 import sys
@@ -38,13 +48,21 @@ RULE = ("a registry class with 1-3 registry points (random flags) and a sequence
         "to one private context, an at-least-one list of contexts, a (chain of) context-bound helper "
         "datasource(s), a context plus a helper, or (rarely) a context-free helper; outcomes value / "
         "list value / SkipComponent / ContentException / CalledProcessError / TimeoutException / "
-        "ValueError; each of the 3-4 private contexts is made the single active one in turn, through "
-        "dr.run, dr.run_all, dr.run_incremental or dr.run_components (harness-chosen linear extension / "
-        "cached dr.run_order). Sub-check history: the same kind of world (values as DatasourceProvider) "
+        "ValueError; a spec set may bind one datasource object to several registry-point names (created in "
+        "the same class or bound by an earlier class under another name; ~1 world in 12); the 3-4 context "
+        "classes are private classes extending ExecutionContext, private classes extending the class of an "
+        "earlier slot, or the shipped HostContext / JBossContext / HostArchiveContext (~60 % of the worlds "
+        "have two contexts related by inheritance); each of the contexts is made the single active one in turn, through "
+        "dr.run, dr.run_all, dr.run_incremental, dr.run_components (harness-chosen linear extension / "
+        "cached dr.run_order) with the context put into the broker by the harness, or through insights._run("
+        "broker, graph, context=C), which puts it there itself. Sub-check shipped: every registry point of "
+        "insights.specs.Specs x every context a shipped implementation declares or that extends one of them, "
+        "broker prepared by the harness and by insights._run. Sub-check history: the same kind of world (values as DatasourceProvider) "
         "plus 1-5 evaluation steps in one process, each through one public front end (insights.run with "
         "root / context / component list / no root, insights._run, insights.process_dir, dr.run over a "
         "private graph / the default graph / the group name / one caller-owned graph object, dr.run_all, "
-        "dr.run_incremental, dr.run_components, SingleEvaluator.process) under one private context or on a "
+        "dr.run_incremental, dr.run_components, SingleEvaluator.process; the broker of the latter prepared by "
+        "the harness or by hydration.initialize_broker) under one context of the world or on a "
         "serialized archive dehydrated from an evaluation of the world; resolver applied after every step "
         "and for every context over the default graph (and the caller-owned graph) after the last one; "
         "non-trivial there: a spec went through an archive, or >= 2 steps over a world with an override. "
@@ -53,7 +71,12 @@ RULE = ("a registry class with 1-3 registry points (random flags) and a sequence
         "naming several contexts or a latest implementation that yields nothing; distinct by the "
         "whole case.")
 ASSUMPTIONS = [
-    "exactly one execution context is present in the broker",
+    "exactly one execution context is designated by the caller (put into the broker by the harness, named by "
+    "the directory's marker file, or handed over as context=); 'the active context' is that class - a context "
+    "class that extends another one is a different context, implementations declared only for the class it "
+    "extends (or for a class extending it) are implementations for other contexts",
+    "one datasource object bound to several registry-point names is one implementation with one execution; "
+    "the statement is applied per spec name (see EXCLUDED for the constellation in which it contradicts itself)",
     "spec sets subclass the registry class directly (as every shipped spec set does)",
     "'declared for a context' = the context class is reachable through the implementation's "
     "dependency declarations; an implementation whose declarations reach no context is declared for "
@@ -74,6 +97,13 @@ EXCLUDED = [
     "context-free one has a value: the statement does not say whether a context-free "
     "implementation is 'overridden' (call-log assertions are still made)",
     "implementations returning None or an empty list (whether that is 'a value' is not stated)",
+    "a datasource object bound to several spec names that is, under the active context, the latest "
+    "implementation of one name and registered earlier than another implementation under another name: the "
+    "statement demands both that it is not executed at all and that it supplies the value - neither is "
+    "asserted for that object, the value of the specs it is the latest implementation of is not asserted "
+    "(all other claims are); the same object bound twice to the SAME spec name is not generated",
+    "context classes that inherit the marker of the class they extend (every private context has a marker of "
+    "its own); directories carrying several markers",
     "spec sets that subclass another implementing class; two contexts active at once",
     "history: pooled front ends (parallel=True / pool=...), cluster archives, compressed archives "
     "(extract), print_summary / command-line parsing of insights.run",
@@ -101,27 +131,73 @@ def _refs_ok(refs, nctx, nhelp):
     return True
 
 
+SHIPPED_CTX = ["HostContext", "JBossContext", "HostArchiveContext"]
+# execution contexts of the repository a context slot may BE (JBossContext extends HostContext) or extend
+
+
+def _ctx_descr(case):
+    """per context slot: None = a private class extending ExecutionContext directly, an int j < i = a
+    private class extending the class of slot j, a name of SHIPPED_CTX = that shipped class itself"""
+    return list(case.get("ctxs") or [None] * case["nctx"])
+
+
 def _validate(case):
     nctx = case["nctx"]
     if not 2 <= nctx <= 5:
         raise HarnessError("bad case: nctx")
+    descr = _ctx_descr(case)
+    if len(descr) != nctx:
+        raise HarnessError("bad case: ctxs")
+    for i, d in enumerate(descr):
+        if d is None:
+            continue
+        if isinstance(d, bool) or not (isinstance(d, int) and 0 <= d < i) and not (
+                d in SHIPPED_CTX and descr.count(d) == 1):
+            raise HarnessError("bad case: context slot %d: %r" % (i, d))
     for j, h in enumerate(case["helpers"]):
         if not _refs_ok(h["req"] + h["grp"], nctx, j):
             raise HarnessError("bad case: helper %d refers forward" % j)
         if any(r[0] == "h" for r in h["grp"]):
             raise HarnessError("bad case: helper group may only hold contexts")
-    for s in case["sets"]:
+    creators = {}      # object id (set, point of the creating entry) -> points it is bound to so far
+    for si, s in enumerate(case["sets"]):
         seen = set()
         for im in s:
             if not 0 <= im["point"] < len(case["points"]) or im["point"] in seen:
                 raise HarnessError("bad case: point index")
             seen.add(im["point"])
+            if "same_as" in im:
+                # the datasource object created by an earlier entry (of this or an earlier spec set) is
+                # bound to one more registry-point name; never a second time to the same name
+                oid = tuple(im["same_as"])
+                if oid not in creators or im["point"] in creators[oid]:
+                    raise HarnessError("bad case: same_as %r" % (im["same_as"],))
+                creators[oid].add(im["point"])
+                continue
+            creators[(si, im["point"])] = set([im["point"]])
             if not _refs_ok(im["req"] + im["grp"], nctx, len(case["helpers"])):
                 raise HarnessError("bad case: implementation refs")
             if any(r[0] == "h" for r in im["grp"]):
                 raise HarnessError("bad case: implementation group may only hold contexts")
             if not im["req"] and not im["grp"]:
                 raise HarnessError("bad case: implementation without any declaration")
+
+
+def _bindings(case):
+    """-> (per point: [(set index, object id)] in registration order, {object id: creating entry}).
+    An object id is (set, point) of the entry that created the datasource object; an entry with
+    "same_as" binds an existing object to one more registry-point name."""
+    creators = {}
+    per_point = [[] for _ in case["points"]]
+    for si, s in enumerate(case["sets"]):
+        for im in s:
+            if "same_as" in im:
+                oid = tuple(im["same_as"])
+            else:
+                oid = (si, im["point"])
+                creators[oid] = im
+            per_point[im["point"]].append((si, oid))
+    return per_point, creators
 
 
 def _declared(node, hdecl):
@@ -160,39 +236,62 @@ def _value(tag, out):
 
 
 def model(case, active):
-    """-> per point: dict(expect_value | absent | unasserted, must_not_run=[impl ids],
-    latest=impl id or None, latest_runs=bool)"""
+    """-> per point: dict(mode = value | absent | unasserted, value, must_not_run=[[set, point, why, object id]],
+    latest=[set, point] of the binding or None, latest_obj=object id, latest_runs=bool, ...).
+
+    One datasource object may be bound to several registry-point names (same_as).  It is then ONE
+    implementation with one execution; the statement is applied per spec name.  Where the statement
+    contradicts itself for such an object - registered earlier than another implementation for the active
+    context under one name ("not executed at all") and the latest one under another name ("supplies the
+    value") - nothing is demanded of that object and of the specs it is the latest implementation of
+    (conflict=True, mode unasserted)."""
     hdecl = []
     hval = {}
     for j, h in enumerate(case["helpers"]):
         hdecl.append(_declared(h, hdecl))
         if _satisfied(h, active, hval) and h["out"] == "ok":
             hval[j] = "h%d" % j
+    per_point, creators = _bindings(case)
+    obj = {}
+    for oid, im in creators.items():
+        runnable = _satisfied(im, active, hval)
+        obj[oid] = {"decl": _declared(im, hdecl), "runnable": runnable,
+                    "val": _value("v|s%d|p%d" % oid, im["out"]) if runnable else None,
+                    "names": sum(1 for pp in per_point for (_si, o) in pp if o == oid)}
+    roles = {}
+    for p, binds in enumerate(per_point):
+        cands = [oid for (_si, oid) in binds if active in obj[oid]["decl"]]
+        for oid in cands[:-1]:
+            roles.setdefault(oid, set()).add("earlier")
+        if cands:
+            roles.setdefault(cands[-1], set()).add("latest")
+    conflict = set(oid for oid, r in roles.items() if len(r) == 2)
     res = []
-    for p in range(len(case["points"])):
-        impls = []   # (impl id, declared, runnable, value)
-        for si, s in enumerate(case["sets"]):
-            for im in s:
-                if im["point"] != p:
-                    continue
-                decl = _declared(im, hdecl)
-                runnable = _satisfied(im, active, hval)
-                val = _value("v|s%d|p%d" % (si, p), im["out"]) if runnable else None
-                impls.append({"id": [si, p], "decl": decl, "runnable": runnable, "val": val})
+    for p, binds in enumerate(per_point):
+        impls = [{"id": [si, p], "oid": oid, "decl": obj[oid]["decl"], "runnable": obj[oid]["runnable"],
+                  "val": obj[oid]["val"]} for (si, oid) in binds]
         cands = [k for k, im in enumerate(impls) if active in im["decl"]]
         free = [k for k, im in enumerate(impls) if not im["decl"]]
         free_val = [k for k in free if impls[k]["val"] is not None]
-        must_not_run = [impls[k]["id"] + ["registered earlier for the active context"] for k in cands[:-1]]
-        must_not_run += [im["id"] + ["declared only for other contexts"] for im in impls
+        must_not_run = [impls[k]["id"] + ["registered earlier for the active context", list(impls[k]["oid"])]
+                        for k in cands[:-1] if impls[k]["oid"] not in conflict]
+        must_not_run += [im["id"] + ["declared only for other contexts", list(im["oid"])] for im in impls
                          if im["decl"] and active not in im["decl"]]
-        r = {"point": p, "must_not_run": must_not_run, "latest": None, "latest_runs": False,
+        r = {"point": p, "must_not_run": must_not_run, "latest": None, "latest_obj": None, "latest_runs": False,
              "mode": "absent", "value": None, "n_impls": len(impls), "n_cands": len(cands),
-             "mixed": any(len(impls[k]["decl"]) > 1 for k in cands), "n_free": len(free)}
+             "mixed": any(len(impls[k]["decl"]) > 1 for k in cands), "n_free": len(free), "conflict": False,
+             "shared": any(obj[im["oid"]]["names"] > 1 for im in impls),
+             "latest_shared": False}
         if cands:
             L = impls[cands[-1]]
             r["latest"] = L["id"]
+            r["latest_obj"] = list(L["oid"])
             r["latest_runs"] = L["runnable"]
-            if L["val"] is not None:
+            r["latest_shared"] = obj[L["oid"]]["names"] > 1
+            if L["oid"] in conflict:
+                r["conflict"] = True
+                r["mode"] = "unasserted"
+            elif L["val"] is not None:
                 if any(k > cands[-1] for k in free_val):
                     r["mode"] = "unasserted"
                 else:
@@ -234,6 +333,41 @@ def selftest():
     m = model(case, 1)[0]
     assert m["mode"] == "value" and m["value"] == ["v|s1|p0#0", "v|s1|p0#1"]
     assert model(case, 0)[0]["mode"] == "unasserted"
+    # one object under two names: it overrides the earlier implementations of both names and supplies both
+    case = {"nctx": 3, "points": [{}, {}], "helpers": [],
+            "sets": [[im(0, req=["c0"]), im(1, req=["c0"])],
+                     [im(1, grp=["c0", "c1"], out="list"), {"point": 0, "same_as": [1, 1]}]]}
+    _validate(case)
+    m = model(case, 0)
+    assert [x["mode"] for x in m] == ["value", "value"] and m[0]["value"] == m[1]["value"] == ["v|s1|p1#0", "v|s1|p1#1"]
+    assert [x[:2] for x in m[0]["must_not_run"]] == [[0, 0]] and [x[:2] for x in m[1]["must_not_run"]] == [[0, 1]]
+    assert m[0]["latest_obj"] == m[1]["latest_obj"] == [1, 1] and not m[0]["conflict"]
+    m = model(case, 1)
+    assert [x["mode"] for x in m] == ["value", "value"] and [len(x["must_not_run"]) for x in m] == [1, 1]
+    # ... a later class overrides it under ONE of its names: for c0 the statement contradicts itself for
+    # that object (nothing demanded of it, spec 1 unasserted), spec 0 is decided as usual; for c1 no conflict
+    case["sets"].append([im(0, req=["c0"], out="skip")])
+    _validate(case)
+    m = model(case, 0)
+    assert m[0]["mode"] == "absent" and m[0]["latest"] == [2, 0] and [x[:2] for x in m[0]["must_not_run"]] == [[0, 0]]
+    assert m[1]["mode"] == "unasserted" and m[1]["conflict"] and [x[:2] for x in m[1]["must_not_run"]] == [[0, 1]]
+    m = model(case, 1)
+    assert [x["mode"] for x in m] == ["value", "value"] and not m[1]["conflict"]
+    # bound by a later class under another name
+    case = {"nctx": 3, "points": [{}, {}], "helpers": [],
+            "sets": [[im(0, req=["c2"])], [im(1, req=["c2"], out="zero")], [{"point": 1, "same_as": [0, 0]}]]}
+    _validate(case)
+    m = model(case, 2)
+    assert m[0]["value"] == m[1]["value"] == "v|s0|p0" and [x[:2] for x in m[1]["must_not_run"]] == [[1, 1]]
+    # a context that extends another one is another context
+    case = {"nctx": 3, "ctxs": ["HostContext", 0, "JBossContext"], "points": [{}], "helpers": [],
+            "sets": [[im(0, req=["c0"])], [im(0, req=["c1"], out="skip")]]}
+    _validate(case)
+    assert _ancestors(case, 1) == [0] and _ancestors(case, 2) == [0] and _ancestors(case, 0) == []
+    m = model(case, 1)[0]
+    assert m["mode"] == "absent" and m["latest"] == [1, 0] and [x[:3] for x in m["must_not_run"]] == [[0, 0, "declared only for other contexts"]]
+    assert model(case, 2)[0]["mode"] == "absent" and len(model(case, 2)[0]["must_not_run"]) == 2
+    assert _related(case, 1) == set(["impl-for-base"]) and _related(case, 0) == set(["impl-for-derived"])
 
 
 # ------------------------------------------------------------------------------------------------
@@ -253,10 +387,18 @@ def _raise(out, name):
         raise ValueError(name)
 
 
-def _cleanup(comps, ctxs, modname):
+def _cleanup(comps, ctxs, modname, shipped=None):
+    """ctxs: the private context classes (removed altogether); shipped: {shipped context class: did it have
+    an entry in dr.DEPENDENTS before the world was built} - only the generated components are taken out of
+    its dependents"""
     from insights.core import dr
     from insights.core.context import ExecutionContextMeta
     allc = list(comps) + list(ctxs)
+    for c, had in (shipped or {}).items():
+        if c in dr.DEPENDENTS:
+            dr.DEPENDENTS[c].difference_update(comps)
+            if not had and not dr.DEPENDENTS[c]:
+                dr.DEPENDENTS.pop(c, None)
     for regname in ("DELEGATES", "DEPENDENCIES", "DEPENDENTS", "ENABLED", "IGNORE", "MODULE_NAMES",
                     "BASE_MODULE_NAMES"):
         reg = getattr(dr, regname)
@@ -302,11 +444,23 @@ def _build(case, uid, log, parsed, provider=False):
     comps = []
     ctxs = []
     world = {"ctxs": ctxs, "comps": comps, "modname": modname, "helpers": [], "points": [],
-             "impls": {}, "parsers": [], "classes": []}
-    for i in range(case["nctx"]):
-        c = type("Ctx%d_%d" % (uid, i), (ExecutionContext,),
-                 {"__module__": modname, "marker": "vp_c05_marker_%d_%d" % (uid, i)})
-        setattr(mod, c.__name__, c)
+             "impls": {}, "parsers": [], "classes": [], "private_ctxs": [], "shipped_ctxs": {},
+             "objs": {}}
+    from insights.core import context as _context
+    from insights.core import dr as _dr
+    for i, d in enumerate(_ctx_descr(case)):
+        if isinstance(d, str):
+            # the shipped class itself is a context of the world
+            c = getattr(_context, d)
+            world["shipped_ctxs"][c] = c in _dr.DEPENDENTS
+        else:
+            # a private context: extends ExecutionContext directly or the class of an earlier slot (as
+            # JBossContext extends HostContext, as plugins extend HostArchiveContext); its own marker
+            base = ExecutionContext if d is None else ctxs[d]
+            c = type("Ctx%d_%d" % (uid, i), (base,),
+                     {"__module__": modname, "marker": "vp_c05_marker_%d_%d" % (uid, i)})
+            setattr(mod, c.__name__, c)
+            world["private_ctxs"].append(c)
         ctxs.append(c)
 
     def deps_of(node):
@@ -346,6 +500,13 @@ def _build(case, uid, log, parsed, provider=False):
         sdict = {"__module__": modname}
         for im in s:
             p = im["point"]
+            if "same_as" in im:
+                # `secondary = primary` in a class body / one datasource assigned to two names: the SAME
+                # object under one more registry-point name
+                comp = world["objs"][tuple(im["same_as"])]
+                sdict["sp%d_%d" % (uid, p)] = comp
+                world["impls"][(si, p)] = comp
+                continue
 
             def body(broker, si=si, p=p, out=im["out"]):
                 log.append(["i", si, p])
@@ -356,6 +517,7 @@ def _build(case, uid, log, parsed, provider=False):
             comp = datasource(*deps_of(im))(body)
             sdict["sp%d_%d" % (uid, p)] = comp
             world["impls"][(si, p)] = comp
+            world["objs"][(si, p)] = comp
             comps.append(comp)
         cls = type("Set%d_%d" % (uid, si), (registry,), sdict)
         setattr(mod, cls.__name__, cls)
@@ -395,14 +557,23 @@ def _kahn(graph, prio):
     return out
 
 
-DRIVERS = ["run", "run_all", "run_incremental", "run_components", "run_components+run_order"]
+DRIVERS = ["run", "run_all", "run_incremental", "run_components", "run_components+run_order", "insights._run"]
+# "insights._run": the repository's front end for a run without an archive (what insights.run(context=C)
+# calls) - IT puts the context into the broker, not the harness
 
 
-def _drive(driver, graph, broker, prio, cached_order):
-    """evaluates a private copy of `graph` with `broker` through one of dr's public drivers"""
+def _drive(driver, graph, broker, prio, cached_order, ctx_cls=None):
+    """evaluates a private copy of `graph` with `broker` through one of dr's public drivers; the broker holds
+    the active context already, except for "insights._run", which is handed the context class"""
     from insights.core import dr
     g = dict((k, set(v)) for k, v in graph.items())
-    if driver == "run":
+    if driver == "insights._run":
+        import insights
+        insights._run(broker, g, context=ctx_cls)
+        if ctx_cls not in broker:
+            raise Violation("insights._run(broker, graph, context=C): the evaluation did not happen under the "
+                            "context the caller designates")
+    elif driver == "run":
         dr.run(g, broker=broker)
     elif driver == "run_all":
         dr.run_all(g, broker=broker)
@@ -430,6 +601,44 @@ def _plain(v):
     return v
 
 
+def _ancestors(case, i):
+    """context slots whose class the class of slot i extends (directly or not)"""
+    descr = _ctx_descr(case)
+    out = []
+    d = descr[i]
+    if d == "JBossContext" and "HostContext" in descr:
+        d = descr.index("HostContext")
+    while isinstance(d, int):
+        out.append(d)
+        d = descr[d]
+        if d == "JBossContext" and "HostContext" in descr:
+            d = descr.index("HostContext")
+    return out
+
+
+def _related(case, active):
+    """is some implementation declared for a context the active one extends / that extends the active one
+    (and not for the active one itself)?  -> set of "base" / "derived" (labels only)"""
+    hdecl = []
+    for h in case["helpers"]:
+        hdecl.append(_declared(h, hdecl))
+    up = set(_ancestors(case, active))
+    down = set(i for i in range(case["nctx"]) if active in _ancestors(case, i))
+    out = set()
+    for s in case["sets"]:
+        for im in s:
+            if "same_as" in im:
+                continue
+            d = _declared(im, hdecl)
+            if active in d:
+                continue
+            if d & up:
+                out.add("impl-for-base")
+            if d & down:
+                out.add("impl-for-derived")
+    return out
+
+
 def _assert_resolution(case, active, broker, log, parsed, world, labels):
     """the oracle for ONE evaluation of the world described by `case` under private context `active`:
     `broker` is what the evaluation left behind, `log` / `parsed` what the generated bodies recorded
@@ -443,6 +652,9 @@ def _assert_resolution(case, active, broker, log, parsed, world, labels):
     for e in log:
         if e[0] == "i":
             calls[(e[1], e[2])] = calls.get((e[1], e[2]), 0) + 1
+    rel = _related(case, active)
+    if rel:
+        labels.add("active-context-related:" + "+".join(sorted(rel)))
     for m in model(case, active):
         p = m["point"]
         pt = points[p]
@@ -451,15 +663,16 @@ def _assert_resolution(case, active, broker, log, parsed, world, labels):
         for sid in m["must_not_run"]:
             key = (sid[0], sid[1])
             what = sid[2]
-            if calls.get(key):
+            # (the call log is kept per datasource OBJECT: an object bound to several names runs once)
+            if calls.get(tuple(sid[3])):
                 raise Violation("implementation of set %d for point %d (%s) was executed with "
                                 "context %d active" % (sid[0], p, what, active), **ctx)
             if impls[key] in broker:
                 raise Violation("implementation of set %d for point %d has a value in the broker "
                                 "although it must not contribute under context %d" % (sid[0], p, active),
                                 **ctx)
-        if m["latest"] is not None:
-            n = calls.get((m["latest"][0], m["latest"][1]), 0)
+        if m["latest"] is not None and not m["conflict"]:
+            n = calls.get(tuple(m["latest_obj"]), 0)
             if n != (1 if m["latest_runs"] else 0):
                 raise Violation("latest implementation for the active context (set %d, point %d) ran "
                                 "%d time(s), expected %d" % (m["latest"][0], p, n, 1 if m["latest_runs"] else 0),
@@ -487,7 +700,8 @@ def _assert_resolution(case, active, broker, log, parsed, world, labels):
             if seen or parsers[p] in broker:
                 raise Violation("parser on point %d fired although the spec is absent" % p, seen=seen, **ctx)
         else:
-            labels.add("value-unasserted(context-free impl)")
+            labels.add("value-unasserted(shared object: earlier under one name, latest under another)"
+                       if m["conflict"] else "value-unasserted(context-free impl)")
             # still: the parser sees what the point holds, nothing else
             if pt in broker:
                 v = held(pt)
@@ -510,6 +724,12 @@ def _assert_resolution(case, active, broker, log, parsed, world, labels):
             labels.add("has-context-free-impl")
             if m["mode"] == "value" and m["n_cands"]:
                 labels.add("declared-beats-earlier-context-free")
+        if m["shared"]:
+            labels.add("point-with-shared-object")
+        if m["latest_shared"] and not m["conflict"]:
+            labels.add("latest-is-shared-object")
+            if m["n_cands"] >= 2:
+                labels.add("shared-object-overrides")
         if m["n_impls"] >= 3 and m["n_cands"] >= 2 and (m["mixed"] or m["mode"] == "absent"):
             nontrivial_here = True
     return nontrivial_here
@@ -543,8 +763,9 @@ def check_world(case):
                     graph.update(dr.get_dependency_graph(ps))
                 broker = dr.Broker()
                 broker.store_skips = bool(case.get("store_skips"))
-                broker[ctxs[active]] = ctxs[active]()
-                _drive(case.get("driver", "run"), graph, broker, case.get("prio") or [0], cached_order)
+                if case.get("driver") != "insights._run":
+                    broker[ctxs[active]] = ctxs[active]()
+                _drive(case.get("driver", "run"), graph, broker, case.get("prio") or [0], cached_order, ctxs[active])
                 if _assert_resolution(dict(case, sets=case["sets"][:nsets]), active, broker, log, parsed, world, labels):
                     nontrivial_here = True
             return nontrivial_here
@@ -562,7 +783,7 @@ def check_world(case):
         labels.add("driver=%s" % case.get("driver", "run"))
     finally:
         if world is not None:
-            _cleanup(world["comps"], world["ctxs"], world["modname"])
+            _cleanup(world["comps"], world["private_ctxs"], world["modname"], world["shipped_ctxs"])
     return {"nontrivial": nontrivial, "labels": sorted(labels)}
 
 
@@ -572,6 +793,21 @@ def check_world(case):
 @st.composite
 def _world(draw, tier):
     nctx = draw(st.sampled_from([3, 3, 4]))
+    # what the context classes are: private classes extending ExecutionContext directly (as most shipped
+    # contexts do), private classes extending the class of an earlier slot (JBossContext(HostContext),
+    # a plug-in's X(HostArchiveContext)), or a shipped class itself.  "Declared for a context" names a
+    # class; the active context is the class in the broker - a context that extends another one is
+    # another context.
+    ctxs = []
+    for i in range(nctx):
+        kind = draw(st.sampled_from(["new", "new", "new", "new", "derived", "derived", "derived", "shipped"]))
+        if kind == "derived" and i:
+            ctxs.append(draw(st.integers(0, i - 1)))
+        elif kind == "shipped":
+            name = draw(st.sampled_from(SHIPPED_CTX))
+            ctxs.append(None if name in ctxs else name)
+        else:
+            ctxs.append(None)
     focus = draw(st.integers(0, nctx - 1))
     ctx_idx = st.one_of(st.just(focus), st.integers(0, nctx - 1))
 
@@ -599,10 +835,14 @@ def _world(draw, tier):
     if helpers:
         kinds += ["via", "via", "ctx+via"]
     sets = []
+    bound = {}      # object id -> points the object is bound to so far
+    share = npoints >= 2 and draw(st.sampled_from([False, False, True]))
     for si in range(draw(st.integers(1, 6))):
         s = []
+        unused = []
         for p in range(npoints):
             if not draw(st.sampled_from([True, True, True, False])):
+                unused.append(p)
                 continue
             kind = draw(st.sampled_from(kinds))
             im = {"point": p, "req": [], "grp": [], "out": draw(st.sampled_from(OUTS))}
@@ -615,11 +855,31 @@ def _world(draw, tier):
             else:
                 im["req"] = ["c%d" % draw(ctx_idx), "h%d" % draw(st.integers(0, len(helpers) - 1))]
             s.append(im)
+            bound[(si, p)] = set([p])
+        if share:
+            # one datasource object under several registry-point names: `secondary = primary` in the class
+            # body (the object was created in this class) or a datasource that an earlier class already
+            # bound to another name; never twice under the same name.  Position in the class body: anywhere
+            # after the entry that creates the object.
+            for q in unused:
+                here = [o for o in sorted(bound) if o[0] == si and q not in bound[o]]
+                before = [o for o in sorted(bound) if o[0] < si and q not in bound[o]]
+                pool = here + here + here + before
+                if not pool or not draw(st.sampled_from([True, True, False])):
+                    continue
+                oid = draw(st.sampled_from(pool))
+                bound[oid].add(q)
+                first = 0
+                if oid[0] == si:
+                    first = 1 + [k for k, e in enumerate(s) if "same_as" not in e and e["point"] == oid[1]][0]
+                s.insert(draw(st.integers(first, len(s))), {"point": q, "same_as": list(oid)})
         sets.append(s)
     case = {"nctx": nctx, "points": points, "helpers": helpers, "sets": sets,
             "store_skips": draw(st.booleans()),
             "driver": draw(st.sampled_from(["run", "run", "run_all", "run_incremental", "run_components",
-                                            "run_components", "run_components+run_order"]))}
+                                            "run_components", "run_components+run_order", "insights._run"]))}
+    if any(c is not None for c in ctxs):
+        case["ctxs"] = ctxs
     if case["driver"] == "run_components":
         case["prio"] = draw(st.lists(st.integers(0, 40), min_size=1, max_size=10))
     if len(sets) >= 2 and draw(st.integers(0, 2)) == 0:
@@ -714,10 +974,20 @@ def shipped_cases(tier):
         for im in impls:
             ctxs |= _decl_ctx(im, memo)
     from insights.core import dr
+    from insights.core.context import ExecutionContextMeta
+    # ... and the repository's own contexts that EXTEND one of them (JBossContext extends HostContext): with
+    # such a context active, the implementations declared for the context it extends are implementations
+    # for another context
+    for c in list(ExecutionContextMeta.registry):
+        if str(c.__module__).startswith("insights.") and c not in ctxs and any(issubclass(c, b) for b in ctxs):
+            ctxs = ctxs | set([c])
     names = sorted(dr.get_name(c) for c in ctxs)
     for pname in sorted(w["points"]):
         for cname in names:
+            # the context is put into the broker by the harness, or by the repository's front end for a
+            # run without an archive (insights._run, what insights.run(context=...) does)
             yield {"point": pname, "context": cname}
+            yield {"point": pname, "context": cname, "via": "insights._run"}
 
 
 def check_shipped(case):
@@ -795,9 +1065,15 @@ def check_shipped(case):
                 return ("stub", dr.get_name(comp))
             d.invoke = stub
             patched.append(d)
-        broker = dr.Broker()
-        broker[C] = C()
-        dr.run(dict(graph), broker=broker)
+        if case.get("via") == "insights._run":
+            import insights
+            broker = insights._run(dr.Broker(), dict(graph), context=C)
+            if broker is None or C not in broker:
+                raise Violation("insights._run(context=%s) did not evaluate under that context" % case["context"])
+        else:
+            broker = dr.Broker()
+            broker[C] = C()
+            dr.run(dict(graph), broker=broker)
     finally:
         for d in patched:
             try:
@@ -821,6 +1097,10 @@ def check_shipped(case):
             raise Violation("shipped implementation %s was executed %d times" % (dr.get_name(im), n), **ctx)
     free = [im for im in impls if not _decl_ctx(im, memo)]
     labels = ["impls=%s" % (len(impls) if len(impls) < 3 else "3+"), "cands=%s" % (len(cs) if len(cs) < 3 else "3+")]
+    if case.get("via"):
+        labels.append("via=" + case["via"])
+    if any(C is not x and issubclass(C, x) for im in impls for x in _decl_ctx(im, memo)):
+        labels.append("active-context-extends-a-declared-one")
     if free:
         labels.append("has-context-free-impl(unasserted)")
     elif cs:
@@ -864,7 +1144,7 @@ def check_shipped(case):
 # only while a case runs (its previous content is put back afterwards, same objects).
 
 CTX_DRIVERS = ["insights.run", "insights.run", "insights.run+context", "insights.run+components",
-               "insights.run-noroot", "_run", "process_dir", "dr.run(graph)", "dr.run(default)",
+               "insights.run-noroot", "_run", "_run-noroot", "process_dir", "dr.run(graph)", "dr.run(default)",
                "dr.run(group)", "dr.run_all(default)", "dr.run_incremental(graph)", "dr.run_components",
                "SingleEvaluator.process", "SingleEvaluator.process+incremental",
                "dr.run(own graph)", "dr.run_incremental(own graph)", "dr.run_components(own graph)",
@@ -874,6 +1154,10 @@ SER_DRIVERS = ["insights.run", "insights.run", "insights.run+components", "_run"
                "SingleEvaluator.process(graph)", "SingleEvaluator.process+incremental",
                "dr.run(default)", "dr.run(group)", "dr.run_incremental(default)", "SingleEvaluator.process",
                "dr.run(own graph)", "dr.run_incremental(own graph)", "SingleEvaluator.process(own graph)"]
+FRONT_ENDS_SEEDING = ["insights.run", "insights.run+context", "insights.run+components", "insights.run-noroot",
+                      "_run", "_run-noroot", "process_dir"]
+# front ends that put the execution context into the broker themselves; the others take a broker the
+# caller prepared: by hand (broker[C] = C()), or - step key "seed" - with hydration.initialize_broker
 # "own graph": ONE graph object the caller built from get_dependency_graph before the first step and keeps
 # handing over (callers cache their graph); "default" / "group": the process-wide graph of the single group
 
@@ -895,6 +1179,8 @@ def check_history(case):
     steps = case["steps"]
     for stp in steps:
         if stp["kind"] not in ("ctx", "ser") or stp["driver"] not in (CTX_DRIVERS if stp["kind"] == "ctx" else SER_DRIVERS):
+            raise HarnessError("bad case: step %r" % (stp,))
+        if stp.get("seed") not in (None, "initialize_broker", "initialize_broker+context"):
             raise HarnessError("bad case: step %r" % (stp,))
     uid = next(_counter)
     log, parsed = [], []
@@ -992,21 +1278,41 @@ def check_history(case):
                 raise HarnessError("bad case: driver %r" % (driver,))
             return b
 
-        def eval_private(i, driver, prio):
-            """one evaluation with private context i active -> the broker it leaves behind"""
+        def designate(i):
+            """how a caller designates context i for a directory: (directory carrying the context's own
+            marker file, None), or - a context without a marker of its own (HostContext, JBossContext) -
+            (some directory, the context class handed over)"""
             C = ctxs[i]
+            if C.__dict__.get("marker"):
+                return marked_dir(i), None
+            return unmarked_dir(), C
+
+        def eval_private(i, driver, prio, seed=None):
+            """one evaluation with context i active -> the broker it leaves behind"""
+            C = ctxs[i]
+            root, carg = designate(i)
             if driver == "insights.run":
-                return insights.run(root=marked_dir(i), store_skips=store_skips)
+                return insights.run(root=root, context=carg, store_skips=store_skips)
             if driver == "insights.run+context":
                 return insights.run(root=unmarked_dir(), context=C, store_skips=store_skips)
             if driver == "insights.run+components":
-                return insights.run(component=list(parsers), root=marked_dir(i), store_skips=store_skips)
+                return insights.run(component=list(parsers), root=root, context=carg, store_skips=store_skips)
             if driver == "insights.run-noroot":
                 return insights.run(context=C, store_skips=store_skips)
             if driver == "_run":
-                return insights._run(new_broker(), dr.COMPONENTS[dr.GROUPS.single], root=marked_dir(i))
+                return insights._run(new_broker(), dr.COMPONENTS[dr.GROUPS.single], root=root, context=carg)
+            if driver == "_run-noroot":
+                return insights._run(new_broker(), dr.COMPONENTS[dr.GROUPS.single], context=C)
             if driver == "process_dir":
-                return insights.process_dir(new_broker(), marked_dir(i), dr.COMPONENTS[dr.GROUPS.single], None)
+                return insights.process_dir(new_broker(), root, dr.COMPONENTS[dr.GROUPS.single], carg)
+            if seed == "initialize_broker":
+                # the repository's own way of preparing a broker for a directory (what process_dir,
+                # insights-cat / insights-inspect and the shell do before they evaluate)
+                _ctx, b = initialize_broker(root, context=carg, broker=new_broker())
+                return drive_broker(driver, b, prio)
+            if seed == "initialize_broker+context":
+                _ctx, b = initialize_broker(unmarked_dir(), context=C, broker=new_broker())
+                return drive_broker(driver, b, prio)
             return drive_broker(driver, new_broker(C), prio)
 
         def eval_serialized(root, driver):
@@ -1041,19 +1347,17 @@ def check_history(case):
             hdecl = []
             for h in wcase["helpers"]:
                 hdecl.append(_declared(h, hdecl))
+            per_point, creators = _bindings(wcase)
             for p, pt in enumerate(points):
                 free = False
-                for si, s_ in enumerate(wcase["sets"]):
-                    for im in s_:
-                        if im["point"] != p:
-                            continue
-                        if not _declared(im, hdecl):
-                            free = True
-                            continue
-                        if (si, p) in calls or impls[(si, p)] in broker:
-                            raise Violation("%s: implementation of set %d for point %d is declared only for other "
-                                            "contexts but was executed / holds a value under the serialized-archive "
-                                            "context" % (where, si, p))
+                for si, oid in per_point[p]:
+                    if not _declared(creators[oid], hdecl):
+                        free = True
+                        continue
+                    if oid in calls or impls[(si, p)] in broker:
+                        raise Violation("%s: implementation of set %d for point %d is declared only for other "
+                                        "contexts but was executed / holds a value under the serialized-archive "
+                                        "context" % (where, si, p))
                 seen = [v for (pp, v) in parsed if pp == p]
                 if pt in broker:
                     if p not in hydrated and not free:
@@ -1076,9 +1380,14 @@ def check_history(case):
             where = "step %d (%s, %s, context %d)" % (k, stp["kind"], stp["driver"], i)
             if stp["kind"] == "ctx":
                 reset()
-                b = eval_private(i, stp["driver"], stp.get("prio"))
+                b = eval_private(i, stp["driver"], stp.get("prio"), stp.get("seed"))
                 nontrivial = assert_private(i, b, where) or nontrivial
                 labels.add("ctx:" + stp["driver"])
+                seeded = (stp["driver"] in FRONT_ENDS_SEEDING or stp.get("seed"))
+                if seeded:
+                    labels.add("context-put-into-the-broker-by-the-repository")
+                for r in sorted(_related(wcase, i)):
+                    labels.add("step-under-related-context:%s%s" % (r, "(broker seeded by the repository)" if seeded else ""))
             else:
                 # the archive is written from an ordinary evaluation of the world under private context i
                 reset()
@@ -1127,7 +1436,7 @@ def check_history(case):
     finally:
         try:
             if world is not None:
-                _cleanup(world["comps"], world["ctxs"], world["modname"])
+                _cleanup(world["comps"], world["private_ctxs"], world["modname"], world["shipped_ctxs"])
         finally:
             # (components that something registered meanwhile - there should be none - are kept)
             extra = [(k, v) for k, v in group.items() if k not in set(world["comps"] if world else ())]
@@ -1145,12 +1454,20 @@ def _history(draw, tier):
     w.pop("prio", None)
     w.pop("driver", None)
     steps = []
+    # the context of a step: any slot; slots whose class extends / is extended by another slot's class twice as
+    # often (there "another context" is the closest it can be)
+    slots = list(range(w["nctx"]))
+    slots += [i for i in range(w["nctx"]) if _ancestors(w, i) or any(i in _ancestors(w, j) for j in range(w["nctx"]))]
     for _ in range(draw(st.sampled_from([2, 3, 1, 4, 2, 3, 5]))):
         kind = draw(st.sampled_from(["ctx", "ctx", "ser"]))
-        stp = {"kind": kind, "ctx": draw(st.integers(0, w["nctx"] - 1)),
+        stp = {"kind": kind, "ctx": draw(st.sampled_from(slots)),
                "driver": draw(st.sampled_from(CTX_DRIVERS if kind == "ctx" else SER_DRIVERS))}
         if stp["driver"].startswith("dr.run_components"):
             stp["prio"] = draw(st.lists(st.integers(0, 40), min_size=1, max_size=10))
+        if kind == "ctx" and stp["driver"] not in FRONT_ENDS_SEEDING:
+            seed = draw(st.sampled_from([None, None, "initialize_broker", "initialize_broker+context"]))
+            if seed:
+                stp["seed"] = seed
         steps.append(stp)
     return {"world": w, "steps": steps}
 
@@ -1164,7 +1481,7 @@ SUBS = [
         budget_thorough=300),
     Sub("history", check_history, strategy=strat_history, quick=400, thorough=3000, workers_quick=2,
         workers_thorough=16, budget_quick=20, budget_thorough=540),
-    Sub("spec_sets", check_world, strategy=strat_world, quick=2600, thorough=12000, workers_quick=2,
+    Sub("spec_sets", check_world, strategy=strat_world, quick=2400, thorough=12000, workers_quick=2,
         workers_thorough=16, budget_quick=36, budget_thorough=540),
 ]
 
